@@ -489,6 +489,12 @@ class CubeTransform:
                     for other in ((False, True) if a == b == "cube" else (False,)):
                         for ac in (True, False):
                             yield {"D": D, "axes": a, "to_axes": b, "vectors": vectors, "other": other, "grid_align_corners": ac}
+        # the other constructor: Cube.from_grid(grid, align_corners) - the flag given overrides the grid's own
+        for D in (2, 3):
+            for a, b in (("cube", "world"), ("world", "cube")):
+                for ac in (True, False):
+                    for flag in (None, True, False):
+                        yield {"D": D, "axes": a, "to_axes": b, "vectors": False, "other": False, "grid_align_corners": ac, "from_grid": str(flag)}
 
     def run(self, case, K):
         from deepali.core.grid import Axes
@@ -496,10 +502,18 @@ class CubeTransform:
         D = case["D"]
         ac = case["grid_align_corners"]
         g, gs = make_grid(K, "g", D, align_corners=ac)
-        cube = K.call(g.cube)
+        if "from_grid" in case:
+            from deepali.core.cube import Cube
+
+            flag = {"None": None, "True": True, "False": False}[case["from_grid"]]
+            cube = K.call(Cube.from_grid, g, align_corners=flag)
+            eff = ac if flag is None else flag
+        else:
+            cube = K.call(g.cube)
+            eff = ac
         if not K.ensure_returns(cube, text="Grid.cube() succeeds"):
             return
-        cax = "cube_corners" if ac else "cube"  # the cube of a grid is its +-1 box for its own align_corners
+        cax = "cube_corners" if eff else "cube"  # the cube of a grid is its +-1 box for its own (or the requested) align_corners
         if case["other"]:
             h, hs = make_grid(K, "h", D, align_corners=not ac)
             outside_cube_band(K, gs, ac, hs, not ac)
